@@ -173,6 +173,13 @@ func runC17(c *Ctx) {
 					write = cl
 				case cl.Call.IsInvoke() && cl.Call.Method.Name() == "Chtimes":
 					touch = cl
+				case staticCallee(&cl.Call) != nil && inPkg(fsPkgRel)(staticCallee(&cl.Call)) && funcContainsCall(staticCallee(&cl.Call), func(cc *ssa.CallCommon) bool {
+					return cc.IsInvoke() && (cc.Method.Name() == "WriteFile" || cc.Method.Name() == "Chtimes")
+				}):
+					// the refresh was moved into a helper
+					if write == nil {
+						write = cl
+					}
 				case strings.HasSuffix(n, "SleepWithContext") || n == "time.Sleep":
 					sleep = cl
 				}
@@ -196,7 +203,7 @@ func runC17(c *Ctx) {
 				good, why = false, "the first refresh does not precede the first sleep: a fresh lock has no heartbeat for a whole period"
 			}
 			// path of the file written = parameter
-			if write != nil && paramIndex(hb, write.Call.Args[0]) < 0 {
+			if write != nil && write.Call.IsInvoke() && paramIndex(hb, write.Call.Args[0]) < 0 {
 				good, why = false, "the file written is not the heartbeat path given by the lock"
 			}
 		}
